@@ -9,6 +9,7 @@ Adds to the recipe node kinds of gen/recipes.py:
 """
 
 import collections
+import os
 
 from hypothesis import strategies as st
 
@@ -98,6 +99,8 @@ def dag(draw, *, max_nodes=12, leaf_profile='plain', kinds=None, p_alias=0.55,
   """
   leaf_st = leaves.leaf(leaf_profile)
   kinds = kinds or ['B', 'B', 'B', 'list', 'tuple', 'dict', 'nt', 'box']
+  if os.environ.get('VERIF_EXTRA_KINDS'):   # experiment hook: widen a check's node kinds from outside
+    kinds = list(kinds) + [k for k in os.environ['VERIF_EXTRA_KINDS'].split(',') if k not in kinds]
   fns = fns or ['things:f2', 'things:h1', 'things:Base', 'things:LeafCls', 'things:Other']
   n = draw(st.integers(min_nodes, max_nodes))
   nodes = []
